@@ -254,7 +254,11 @@ class C13(runner.Check):
              "joined names, embedded machine with remap) are covered by the differential only.",
         technique="Lean 4 proof (rewrite algebra of construction scripts + behavioural congruence) + differential "
                   "correspondence + verified equivalence checker on implementation structures")
-    theorems = ()
+    theorems = ('TM.C13_wildcard_expand', 'TM.C13_source_list_expand', 'TM.C13_source_list_split',
+                'TM.C13_same_expand', 'TM.C13_ordered_eq_ring', 'TM.C13_batching', 'TM.C13_batching_states',
+                'TM.C13_ctor_eq_later_adds', 'TM.C13_remove_as_never_added_partial',
+                'TM.C13_remove_as_never_added_counterexample', 'TM.C13_equiv_behaviour',
+                'TM.C13_equiv_behaviour_init', 'TM.C13_equivCheck_sound')
     rule = ('random abstract constructions (2-5 states arriving in 1-3 phases, 1-3 events, <=7 transition items with '
             "'*' / list / single sources, '=' / internal / named destinations, ordered helper with loop options and "
             'per-edge arguments, auto transitions on/off, callbacks in every slot) x 4 construction scripts each '
